@@ -5,7 +5,7 @@ from ..universe import make_event
 
 ID = "C06"
 LEVEL = "model_checking"
-ASSUMPTIONS = ["see C09: real code, SQLite for real, LMDB double, sequential schedule; store observed after all background writers are idle"]
+ASSUMPTIONS = ["real nostr_relay code imported from /repo's working tree, driven through web.start_client / the storage API; SQLite runs for real behind a same-thread connection shim (bound to real aiosqlite by C06's conformance cases); LMDB is an in-memory double (bound to the real liblmdb by C10's conformance cases), msgpack is pip's pure-python codec; asyncio runs on a controlled virtual-time loop; real code, SQLite for real, LMDB double, sequential schedule; store observed after all background writers are idle"]
 
 # integer range inside which a well-formed event must be accepted (outside it the relay may refuse,
 # but an OK=true must still be truthful)
